@@ -33,6 +33,8 @@ ALSO = {'C02': {'R02.4': 'the relative Path is relative to the volume the reader
          'R10.2': 'after trash-empty N exactly the entries older than N days are gone',
          'R10.4': 'a payload is purged as an orphan only when its .trashinfo is absent at that '
                   'moment'},
+ 'C15': {'R15.3': 'an entry that trash-rm failed to purge keeps its .trashinfo (payload first, '
+                  'info last)'},
  'C20': {'R20.2': 'list/rm/restore show the same location for an entry'}}
 
 def suffix_guarded(b, node, entry_term):
